@@ -82,7 +82,7 @@ func init() {
 	register(&Def{
 		ID:          "C07",
 		Technique:   "writer/deleter inventory of the in-flight table with call-graph reachability, lock discipline on the table, dominance of the reservation by validation, extracted 'not executed' predicate vs. reservation post-condition, loop-exit analysis of the release loop",
-		Explanation: "Decides: (D1) ids are reserved at one site, in the context-attach function, and the table is accessed only under the server lock; (D2) the reservation is reached only on the err == nil edge of the same task, a hit in the table fails the task, and all lookups of a batch precede its first reservation; (D3) the predicate under which a response is marked 'not executed' (task.X == nil) is implied false by a reservation (X set non-nil before reserving), the delivery-time release is governed exactly by that mark, and the release loop has no early exit; (D4) ids are deleted only on the way through the delivery function or the stop function (never from CancelRequest). (D5) each reservation stores the cancel function of a context.WithCancel executed for that reservation, and CancelRequest looks up exactly the id it was given. (D6) the in-batch duplicate table is consulted and updated whatever the member's validity; option accessors do not call the user's NewContext themselves.",
+		Explanation: "Decides: (D1) ids are reserved at one site, in the context-attach function, and the table is accessed only under the server lock; (D2) the reservation is reached only on the err == nil edge of the same task, a hit in the table fails the task, and all lookups of a batch precede its first reservation; (D3) the predicate under which a response is marked 'not executed' (task.X == nil) is implied false by a reservation (X set non-nil before reserving), the delivery-time release is governed exactly by that mark, and the release loop has no early exit; (D4) ids are deleted only on the way through the delivery function or the stop function (never from CancelRequest). (D5) each reservation stores the cancel function of a context.WithCancel executed for that reservation, and CancelRequest looks up exactly the id it was given. (D6) the in-batch duplicate table is consulted and updated whatever the member's validity; option accessors do not call the user's NewContext themselves. Also decided: the per-batch duplicate table records only members with an id; the exported cancel entry point stores nothing into the server.",
 		NotDecided:  []string{"the history-level statement in full", "that the key passed to the reservation equals the id looked up (lock-step slices)"},
 		Assumptions: []string{"context.WithCancel/WithValue return non-nil contexts"},
 		RuleText:    ruleText,
@@ -98,6 +98,8 @@ func init() {
 			ruleNullIsAbsent(c, d)
 			ruleFreshCancelPerReservation(c, d)
 			ruleDuplicateCheckForAllMembers(c, d)
+			ruleDupTableHoldsOnlyIDs(c, d)
+			ruleCancelEntryHasNoOtherEffect(c)
 			ruleAccessorsDoNotCallBack(c, "TABLE.default", c.M.Pkg)
 			ruleCancelExactID(c)
 		},
